@@ -477,7 +477,7 @@ func c12gBarrierHelper(c *eng.Ctx) {
 				if fa == nil || eng.FieldVar(fa) != tree {
 					ok, why = false, "lookup in "+eng.Expr(a[0])
 				}
-				if a[1] != ssa.Value(f.Params[1]) {
+				if !c12gOnlyValue(a[1], f.Params[1]) {
 					ok, why = false, "lookup keyed by "+eng.ExprDeep(a[1])
 				}
 			}
@@ -493,7 +493,7 @@ func c12gBarrierHelper(c *eng.Ctx) {
 		c.Clause("R5", "C12.6")
 		hs := eng.Calls(f, `^vault\.\(\*SealManager\)\.namespaceBarrierByLongestPrefix$`)
 		for _, h := range hs {
-			if h.Common().Args[1] == ssa.Value(f.Params[1]) {
+			if c12gOnlyValue(h.Common().Args[1], f.Params[1]) { // directly, or through the cell a deferred closure captures
 				c.OK(f, "locked wrapper hands its path to the helper", h.Pos(), eng.VarName(f.Params[1]))
 			} else {
 				c.Violation(f, "locked wrapper hands its path to the helper", h.Pos(), "helper called with "+eng.ExprDeep(h.Common().Args[1]), nil)
@@ -775,4 +775,148 @@ func c12gCubbyholeSalt(c *eng.Ctx) {
 		}
 	}
 	c.Floor(nil, "cubbyhole keys recomputed by the token store (destroy, tidy)", nr, 2)
+}
+
+// ===================== shape-independent helpers (ROBUST.md) =====================
+
+// c12gMCall is a call of a method from within fn: direct (recv is argument 0) or
+// through a method value bound in fn (`chk := s.SanityCheck; chk(k)`).
+type c12gMCall struct {
+	call ssa.CallInstruction
+	recv ssa.Value
+	args []ssa.Value
+}
+
+func c12gMethodCalls(fn *ssa.Function, full string) []c12gMCall {
+	var out []c12gMCall
+	for _, b := range fn.Blocks {
+		for _, in := range b.Instrs {
+			ci, ok := in.(ssa.CallInstruction)
+			if !ok {
+				continue
+			}
+			cm := ci.Common()
+			switch eng.CalleeName(cm) {
+			case full:
+				if len(cm.Args) > 0 {
+					out = append(out, c12gMCall{ci, cm.Args[0], cm.Args[1:]})
+				}
+			case "closure:" + full + "$bound":
+				if mc, ok := cm.Value.(*ssa.MakeClosure); ok && len(mc.Bindings) == 1 {
+					out = append(out, c12gMCall{ci, mc.Bindings[0], cm.Args})
+				}
+			}
+		}
+	}
+	return out
+}
+
+// c12gOnlyValue: every origin of v is the value p itself (a parameter read directly or
+// through a local cell it was spilled to because a closure captures it).
+func c12gOnlyValue(v ssa.Value, p ssa.Value) bool {
+	os := eng.Origins(v)
+	if len(os) == 0 {
+		return false
+	}
+	for _, o := range os {
+		if o.Val != p {
+			return false
+		}
+	}
+	return true
+}
+
+// c12gFieldOfParam: every origin of v is a load of p.<field>.
+func c12gFieldOfParam(v ssa.Value, field string, p *ssa.Parameter) bool {
+	os := eng.Origins(v)
+	if len(os) == 0 {
+		return false
+	}
+	for _, o := range os {
+		ld, base := c14LoadOfField(o.Val, field)
+		if ld == nil || base != ssa.Value(p) {
+			return false
+		}
+	}
+	return true
+}
+
+// c12gNamespaceOfView: pv is Core.NamespaceView(ns) / NamespaceScopedView(storage, ns), called
+// directly or through a local closure that only forwards to one of them; returns the
+// namespace argument(s) in terms of the enclosing function (a captured variable is
+// replaced by the cell the closure was bound to) and the storage argument(s) of
+// NamespaceScopedView. ok=false: pv is something the rule cannot follow.
+func c12gNamespaceOfView(pv ssa.Value) (nss, storages []ssa.Value, ok bool) {
+	cl, isCall := c11Strip(pv).(*ssa.Call)
+	if !isCall {
+		return nil, nil, false
+	}
+	direct := func(x *ssa.Call, bind func(ssa.Value) ssa.Value) bool {
+		switch eng.CalleeName(&x.Call) {
+		case "vault.(*Core).NamespaceView":
+			nss = append(nss, bind(x.Call.Args[1]))
+			return true
+		case "vault.NamespaceScopedView":
+			storages = append(storages, bind(x.Call.Args[0]))
+			nss = append(nss, bind(x.Call.Args[1]))
+			return true
+		}
+		return false
+	}
+	if direct(cl, func(v ssa.Value) ssa.Value { return v }) {
+		return nss, storages, true
+	}
+	mc, isMC := cl.Call.Value.(*ssa.MakeClosure)
+	if !isMC {
+		return nil, nil, false
+	}
+	g, _ := mc.Fn.(*ssa.Function)
+	if g == nil {
+		return nil, nil, false
+	}
+	bind := func(v ssa.Value) ssa.Value {
+		// *freevar (captured by reference) -> the bound cell; freevar -> the bound value; parameter -> the call's argument
+		if ld, ok := v.(*ssa.UnOp); ok && ld.Op == token.MUL {
+			if fv, ok := ld.X.(*ssa.FreeVar); ok {
+				for k, x := range g.FreeVars {
+					if x == fv && k < len(mc.Bindings) {
+						return mc.Bindings[k]
+					}
+				}
+			}
+			if fa, ok := ld.X.(*ssa.FieldAddr); ok {
+				// field of a captured struct pointer (c.barrier): keep as is, rendered against the closure
+				_ = fa
+			}
+		}
+		if fv, ok := v.(*ssa.FreeVar); ok {
+			for k, x := range g.FreeVars {
+				if x == fv && k < len(mc.Bindings) {
+					return mc.Bindings[k]
+				}
+			}
+		}
+		if p, ok := v.(*ssa.Parameter); ok {
+			for k, x := range g.Params {
+				if x == p && k < len(cl.Call.Args) {
+					return cl.Call.Args[k]
+				}
+			}
+		}
+		return v
+	}
+	rets := eng.Returns(g)
+	if len(rets) == 0 {
+		return nil, nil, false
+	}
+	for _, r := range rets {
+		if len(r.Results) != 1 {
+			return nil, nil, false
+		}
+		x, isC := c11Strip(r.Results[0]).(*ssa.Call)
+		if !isC || !direct(x, bind) {
+			return nil, nil, false
+		}
+	}
+	return nss, storages, true
 }
